@@ -839,18 +839,17 @@ impl<'a> Runtime<'a> {
 
         // Parameters live in their own lexical scope so block locals can shadow them.
         let param_ids = self.bound_param_ids(func_def.id, func_def.params);
+        let has_frame = self.has_frame_arena();
         self.push_scope_with_capacity(func_def.params.params.len(), self.frame);
         let param_scope =
             self.env.last_mut().expect("Parameter scope should exist immediately after push");
         for ((param, maybe_local), arg) in
             func_def.params.params.iter().zip(param_ids.iter().copied()).zip(arg_values)
         {
-            let arg = match arg {
-                Value::Str(ArenaCow::Borrowed(s)) if self.pool.contains(s.as_ptr()) => {
-                    Value::Str(ArenaCow::Owned(self.pool.alloc_str(s)))
-                }
-                other => other,
-            };
+            // A parameter is a variable like any other: its value must not live on the
+            // frame, or a loop in the body (which resets the frame every iteration) frees
+            // what a `p.push(..)` has just grown.
+            let arg = if has_frame { arg.promote(&self.pool, self.frame) } else { arg };
             param_scope.push(LocalSlot { id: maybe_local, name: param, value: arg });
         }
 
